@@ -195,6 +195,7 @@ func genProm(rt *rapid.T) promCase {
 			c.Streams = append(c.Streams, s)
 		}
 	}
+	c.Ver = genVer(rt)
 	return c
 }
 
